@@ -199,7 +199,7 @@ func runAtt(astype int, cutSeed uint64, files []attFile, events []string, alarmI
 	quit, _, gotQuit := srv.WaitForFrom(mark, func(e sock.Event) bool {
 		return sock.Str(e, "event") == "file-event" && (sock.Str(e, "stageName") == "success-quit" || sock.Str(e, "stageName") == "fail-quit") && !sock.Bool(e, "probe")
 	}, 3*time.Second)
-	if !srv.Alive() {
+	if !srv.Ping(2 * time.Second) {
 		_, code, tail := srv.ExitInfo()
 		return "scenario-failed:server/died", &fw.OracleFailure{Sig: "attach-server/died", Msg: fmt.Sprintf("attachment server exited with code %d: %s", code, lastLines(tail, 6))}
 	}
